@@ -1245,4 +1245,19 @@ def SetCallbacksDynamic : String :=
 def EventHelperCallback_Here : String :=
   "Here(caller) { return event.GetCall().Here(caller) }"
 
+def Submit_free : String :=
+  "Submit(executor, f) { decl StaticAssertDecl; var job = MakeUniqueJob(forward(f)); executor.Submit((*job)) }"
+
+def MakeUniqueJob : String :=
+  "MakeUniqueJob(f) { return new(init(forward(f))) }"
+
+def UniqueJob_Call : String :=
+  "Call() { Call(); Drop() }"
+
+def UniqueJob_Drop : String :=
+  "Drop() { delete(this) }"
+
+def SafeCall_Call : String :=
+  "Call() { ifc (is_nothrow_invocable_v) { forward(_func)() } else { try { forward(_func)() } catch {  } } }"
+
 end Yaclib.Skeletons
